@@ -38,7 +38,7 @@ var dlpantherCmd = &cobra.Command{
 			return
 		}
 		f.WriteString(t.Newick() + "\n")
-		closeWriteFile(f, ncbioutput)
+		closeWriteFile(f, pantheroutput)
 		return
 	},
 }
